@@ -564,6 +564,13 @@ fn labelled_cases(thorough: bool, rng: &mut Rng) -> Vec<Case> {
                     push_cases(&mut out, u, "path-relative", &mode, ".", source, &base, "", tail, folder);
                 }
             }
+            // the require names a module-folder file itself (`./pack/init`, `./pack/init.lua`):
+            // plain spelling only
+            if source == &sources[0] || source == &sources[4] {
+                for named in ["init", "index"] {
+                    push_cases(&mut out, &plain, "path-relative-names-module-file", &mode, ".", source, &base, "", &["pack", named], folder);
+                }
+            }
         }
         // ---- path mode, source-prefixed requires
         let configs: [(&str, Vec<(String, String)>, &str, &str); 5] = [
@@ -636,6 +643,11 @@ fn labelled_cases(thorough: bool, rng: &mut Rng) -> Vec<Case> {
             for u in [&plain, &decorated] {
                 push_cases(&mut out, u, if is_module { "luau-relative-module" } else { "luau-relative" }, &luau, ".", source, &base, "", tail, "init");
                 // `@self` always starts at the requiring file's own directory
+            }
+        }
+        if source == "src/main.luau" || source == "src/init.luau" {
+            for named in ["init", "index"] {
+                push_cases(&mut out, &plain, "luau-relative-names-module-file", &luau, ".", source, &base, "", &["pack", named], "init");
             }
         }
         let self_tails: [&[&str]; 2] = [&["m"], &["sub", "m"]];
@@ -898,15 +910,39 @@ fn convert_cases(labelled: &[Case], thorough: bool) -> Vec<ConvCase> {
                 t
             }
             Mode::Luau { aliases } => {
-                let mut t = vec![Mode::Path { folder: s("init"), sources: vec![] }, Mode::Path { folder: s("index"), sources: vec![] }];
+                // module folder names without and with an extension
+                let mut t: Vec<Mode> = ["init", "index", "init.lua", "init.luau", "index.lua"].iter().map(|f| Mode::Path { folder: s(f), sources: vec![] }).collect();
                 if !aliases.is_empty() {
                     t.push(Mode::Path { folder: s("init"), sources: rename_aliases(aliases, false) });
+                    t.push(Mode::Path { folder: s("init.luau"), sources: rename_aliases(aliases, false) });
                 }
                 t
             }
         };
         for target in targets {
-            out.push(ConvCase { case: c.clone(), target });
+            out.push(ConvCase { case: c.clone(), target: target.clone() });
+            // When the two modes name their module-folder file differently, also put files named
+            // after the TARGET's module folder next to the documented file: a conversion that strips
+            // by the wrong mode's name then silently lands on one of them.
+            let current_stem = rust_file_stem(mode_folder(&c.mode)).to_owned();
+            let target_stem = rust_file_stem(mode_folder(&target)).to_owned();
+            if current_stem != target_stem {
+                if let Some(Expect::File(loc)) = &c.expect {
+                    let dir = designed_argument_location(loc, mode_folder(&c.mode));
+                    for extra in [vec![format!("{}.luau", target_stem)], vec![format!("{}.lua", target_stem), target_stem.clone()]] {
+                        let mut with = c.clone();
+                        for name in extra {
+                            let mut l = dir.clone();
+                            l.push(name);
+                            let f = loc_string(&l);
+                            if !with.files.contains(&f) {
+                                with.files.push(f);
+                            }
+                        }
+                        out.push(ConvCase { case: with, target: target.clone() });
+                    }
+                }
+            }
         }
     }
     out
@@ -919,18 +955,58 @@ fn real_find_call(case: &Case) -> (String, Option<PathBuf>) {
     real_find(case)
 }
 
-/// the location a require argument would be written for: module-folder file name or Lua extension dropped
-fn stripped(loc: &Loc) -> Loc {
-    let mut l = loc.clone();
+/// `Path::file_stem` on a file name
+fn rust_file_stem(name: &str) -> &str {
+    match name.rfind('.') {
+        None | Some(0) => name,
+        Some(i) => &name[..i],
+    }
+}
+
+fn mode_folder(mode: &Mode) -> &str {
+    match mode {
+        Mode::Path { folder, .. } => folder,
+        Mode::Luau { .. } => "init",
+    }
+}
+
+/// Where generate_require is *designed* to point for a found file, by the documentation of the
+/// mode that will read the argument (`folder` = its module folder name): the directory when the
+/// file is that mode's module-folder file (file name or stem equal to the name), otherwise the
+/// file without its Lua extension.
+/// the documented module-folder files of a mode: `<name>`, and - when the name has no extension -
+/// `<name>.luau` / `<name>.lua` (path-require-mode docs, candidates 4-6)
+fn documented_module_file(name: &str, folder: &str) -> bool {
+    name == folder || (!folder[folder.len().min(1)..].contains('.') && (name == format!("{}.luau", folder) || name == format!("{}.lua", folder)))
+}
+
+fn designed_argument_location(found: &Loc, folder: &str) -> Loc {
+    let mut l = found.clone();
     if let Some(last) = l.pop() {
-        let stem = last.split('.').next().unwrap_or("");
-        if stem == "init" || stem == "index" {
+        if documented_module_file(&last, folder) {
             return l;
         }
         let name = last.strip_suffix(".luau").or_else(|| last.strip_suffix(".lua")).unwrap_or(&last);
         l.push(name.to_owned());
     }
     l
+}
+
+/// Exactly the shape of known finding F29: the argument points where it is designed to point,
+/// the original file is one of the documented candidates of that location under the target mode,
+/// and what the target mode returns is an EARLIER candidate of the same list (the dropped
+/// extension / module-folder file name let it win). Anything else - in particular a module-folder
+/// file name left in or taken out by the wrong rule - is not F29.
+fn f29_shape(found: &Loc, after: &Loc, target_folder: &str) -> bool {
+    let designed = designed_argument_location(found, target_folder);
+    if designed.is_empty() {
+        return false;
+    }
+    let list = documented_candidates(&designed, "", target_folder);
+    match (list.iter().position(|c| c == after), list.iter().position(|c| c == found)) {
+        (Some(a), Some(f)) => a < f,
+        _ => false,
+    }
 }
 
 fn convert_oracle(case: &Case, target: &Mode, real_arg: &Result<String, String>) -> (Option<PathBuf>, Option<String>) {
@@ -947,8 +1023,8 @@ fn convert_oracle(case: &Case, target: &Mode, real_arg: &Result<String, String>)
                 match after {
                     Some(p) if walk(&cwd(), p.to_str().unwrap_or("")) == want => {}
                     Some(p) => {
-                        // F29's region: another candidate of the same stripped path shadows the file
-                        let shadow = stripped(&walk(&cwd(), p.to_str().unwrap_or(""))) == stripped(&want);
+                        // F29's region, and nothing wider (see f29_shape)
+                        let shadow = f29_shape(&want, &walk(&cwd(), p.to_str().unwrap_or("")), mode_folder(target));
                         oracle = Some(format!("{}`{}` resolved to `{}`; converted to `{}` it resolves to `{}`", if shadow { "[shadowed] " } else { "" }, case.req, before_path.display(), arg, p.display()))
                     }
                     None => oracle = Some(format!("`{}` resolved to `{}`; converted to `{}` it gives `{}`", case.req, before_path.display(), arg, after_text)),
@@ -1708,6 +1784,7 @@ A locator case is non-trivial when at least one candidate file exists (the loop 
         let mut input = case.to_json();
         input["op"] = json!("conv");
         input["target"] = mode_to_json(&cc.target);
+        let mut oracle_reported = false;
         if let Some(what) = &o.oracle {
             let region = if what.starts_with("[shadowed]") {
                 "F29"
@@ -1717,6 +1794,7 @@ A locator case is non-trivial when at least one candidate file exists (the loop 
             report.hist("convert-oracle", if region.is_empty() { "fails" } else { region });
             let excused = region == "F29" && f29_known;
             if !excused {
+                oracle_reported = true;
                 report.violation(Violation { kind: s("oracle"), check: format!("convert-keeps-target/{}", direction), what: what.clone(), input: input.clone(), failing_input_found: true });
             }
         } else if o.found_ok {
@@ -1732,7 +1810,9 @@ A locator case is non-trivial when at least one candidate file exists (the loop 
             None => o.model == "none" && real_arg == case.req,
             Some(a) => a == &real_arg,
         };
-        if !agrees && o.oracle.is_none() {
+        if !agrees && !oracle_reported {
+            // the oracle is silent or its verdict was excused by a listed finding: the model and
+            // the real rule still have to write the same argument
             report.violation(Violation { kind: s("correspondence"), check: format!("generate-require/{}", direction), what: format!("real argument `{}` model `{}`", real_arg, o.model), input, failing_input_found: false });
         } else if !agrees {
             report.count("convert_mismatch_on_failing_input", 1);
